@@ -222,7 +222,16 @@ func c19History(k *fw.K) {
 	}
 	bad := func() (tensor.Tensor, tensor.Tensor, string) {
 		v := rt.MustLeaf(ref.Full([]int{3}, 1), false)
-		switch r.Intn(12) {
+		switch r.Intn(13) {
+		case 12: // the "tensor" is what a REFUSED call returned next to its error (the caller ignored the error): a nil like any other
+			refused, _ := v.Broadcast([]int{[]int{-2, 0, 2}[r.Intn(3)], 7})
+			if r.Intn(2) == 0 {
+				refused, _ = v.Reshape([]int{5})
+			}
+			if r.Intn(2) == 0 {
+				return refused, v, "the (nil) result of a refused Broadcast / Reshape as prediction"
+			}
+			return v, refused, "the (nil) result of a refused Broadcast / Reshape as target"
 		case 9: // a column [n,1] (what a single-unit layer emits) against a vector [n]: ranks differ, the call is invalid
 			n := 1 + r.Intn(4)
 			return rt.MustLeaf(ref.Full([]int{n, 1}, 1), false), rt.MustLeaf(ref.Full([]int{n}, 1), false), "column prediction [n,1] against a vector target [n]"
